@@ -14,8 +14,8 @@ dynamically; a schedule is any `List Label`, each label lets one goroutine start
 (`AppendError` with any batch, `Kill`, `Stop`, `IsDone`, `Err`, `NewChild`, `Close`, on any scope)
 or perform its next shared-memory access; disabled labels (goroutine blocked on `errorsMU` or on
 the `sync.Once`, nothing to do) are skipped.  `(sys v cfg).run sched` is the state after the
-schedule.  Theorems 1–7 are about `Variant.fixed` (the code in /repo) and hold for every
-configuration and every schedule; 8–10 exhibit the defects of the older code / of mutants.
+schedule.  Theorems of sections 1–6 are about `Variant.fixed` (the code in /repo) and hold for every
+configuration and every schedule; section 7 exhibits the defects of the older code / of mutants.
 
 Vocabulary:
   `x.closes`     how many times `close(done)` was executed on context `x` (≥ 2 = run-time panic)
@@ -148,7 +148,30 @@ example : (((sys Variant.fixed ⟨1, [.plain, .isolated 0]⟩).run
      .run 1, .run 1, .run 1, .run 1, .run 1, .run 1, .run 1]).ctxs.map
       (fun x => (x.errors, x.closes, x.propKills))) = [([9], 1, 0), ([canceled], 1, 1)] := by decide
 
-/-! ### 6. The tree before the fix commits, and two mutants -/
+/-! ### 6. The history monitor used by the stress harness is sound -/
+
+/-- For every reachable state and every context nobody is operating on, the history the harness
+records (how many tagged errors were appended, how many Kill and Stop calls were made, what the
+accessors answer, what the parent looks like) is accepted by `conforms`: a rejected history
+contradicts theorems 1–5. -/
+theorem monitor_sound (cfg : Config) (sched : List Label) (c : Nat) (x : Ctx)
+    (hx : ((sys Variant.fixed cfg).run sched).ctxs[c]? = some x)
+    (hq : ((sys Variant.fixed cfg).run sched).quiet c) :
+    conforms (histOf ((sys Variant.fixed cfg).run sched) x) = true :=
+  conforms_histOf (run_allInv cfg sched) hx hq
+
+-- the monitor is not trivially true: a lost error, an unexplained Canceled, a spurious done are rejected
+example : conforms
+    { isolated := false, appended := 5, kills := 2, stops := 1, parentDone := false, parentErr := false,
+      lenTagged := 4, lenCancel := 2, errNonNil := true, done := true, panics := 0 } = false := by decide
+example : conforms
+    { isolated := false, appended := 0, kills := 0, stops := 0, parentDone := true, parentErr := true,
+      lenTagged := 0, lenCancel := 1, errNonNil := true, done := true, panics := 0 } = false := by decide
+example : conforms
+    { isolated := true, appended := 0, kills := 0, stops := 0, parentDone := false, parentErr := false,
+      lenTagged := 0, lenCancel := 0, errNonNil := false, done := true, panics := 0 } = false := by decide
+
+/-! ### 7. The tree before the fix commits, and two mutants -/
 
 /-- `Stop` as check-then-close (`if !IsDone() { close(done) }`): two goroutines, four steps, and
 the channel is closed twice. -/
